@@ -72,9 +72,12 @@ func HostCallReason(id uint64) ExitReason {
 	return ExitHostCall | (ExitReason(id) & hostCallIDMask)
 }
 
-// HostCallID returns the full (56-bit) host-call identifier; GetHostCallID truncates to 8 bits.
+// HostCallID returns the full host-call identifier; GetHostCallID truncates to 8 bits.
+// Identifiers come from ecalli immediates, i.e. they are sign-extended values of at most 32 bits, so
+// the 8 bits that the reason type displaced equal bit 55 of the payload: sign-extending the 56-bit
+// payload restores the identifier exactly (2^64-1 stays 2^64-1, not 2^56-1).
 func (e ExitReason) HostCallID() uint64 {
-	return uint64(e & hostCallIDMask)
+	return uint64(int64(e<<8) >> 8)
 }
 
 func (e ExitReason) GetPageFaultAddress() uint32 {
